@@ -54,8 +54,22 @@ def generate():
     ctx = raop_protocols.StreamContext()
     default_latency = ctx.latency
     assert isinstance(default_latency, int)
+    default_rate = ctx.sample_rate
+    assert isinstance(default_rate, int)
     ctx.channels, ctx.bytes_per_channel = 3, 5
     assert ctx.frame_size == 15 and ctx.packet_size == fpp * 15
+    # reset(): latency = <base> + sample_rate (affine in the sample rate; base read off two rates)
+    bases = set()
+    for rate in (8000, 48000, default_rate):
+        probe = raop_protocols.StreamContext()
+        probe.sample_rate = rate
+        probe.reset()
+        bases.add(probe.latency - rate)
+    assert len(bases) == 1, bases
+    latency_base = bases.pop()
+    assert isinstance(latency_base, int) and latency_base >= 0 and default_latency == latency_base + default_rate
+    fresh = raop_protocols.StreamContext()
+    assert (fresh.rtpseq, fresh.start_ts, fresh.head_ts, fresh.padding_sent) == (0, 0, 0, 0)
 
     audio = _layout(packets.AudioPacketHeader, ["proto", "type", "seqno", "timestamp", "ssrc"])
     retr = _layout(packets.RetransmitReqeust, ["proto", "type", "seqno", "lost_seqno", "lost_packets"])
@@ -73,6 +87,10 @@ def generate():
         f"def maxPacketsCompensate : Nat := {comp}\n\n"
         f"/-- StreamContext().latency (22050 + default sample rate) -/\n"
         f"def defaultLatency : Nat := {default_latency}\n\n"
+        f"/-- StreamContext.reset(): latency = latencyBase + sample_rate -/\n"
+        f"def latencyBase : Nat := {latency_base}\n\n"
+        f"/-- StreamContext().sample_rate -/\n"
+        f"def defaultSampleRate : Nat := {default_rate}\n\n"
         f"/-- field widths in bytes of packets.AudioPacketHeader (big-endian unsigned): proto,type,seqno,timestamp,ssrc -/\n"
         f"def audioHeaderLayout : List Nat := {lst(audio)}\n\n"
         f"/-- field widths in bytes of packets.RetransmitReqeust: proto,type,seqno,lost_seqno,lost_packets -/\n"
